@@ -141,6 +141,85 @@ Section TDel.
       + apply in_app_or in OI as [OI | OI]; auto.
   Qed.
 
+  (** ** every thread target is the root or an inner node; the target lies on its own path *)
+  Lemma length_leaves_inners : forall T, length (leaves T) = S (length (inners T)).
+  Proof.
+    induction T as [i|i l IHl rr IHr]; simpl; auto. rewrite !app_length, IHl, IHr. lia.
+  Qed.
+
+  Lemma leaf_inner_or_root : forall T r0, owns T -> NoDup (leaves T) -> NoDup (inners T) ->
+    In r0 (leaves T) -> ~ In r0 (inners T) -> forall j, In j (leaves T) -> j = r0 \/ In j (inners T).
+  Proof.
+    intros T r0 O NL NI RL RI j Hj.
+    assert (INC : incl (leaves T) (r0 :: inners T)).
+    { apply NoDup_length_incl.
+      - constructor; auto.
+      - simpl. rewrite length_leaves_inners. lia.
+      - intros x [<- | Hx]; auto. now apply owns_inner_leaf. }
+    destruct (INC j Hj) as [<- | H]; auto.
+  Qed.
+
+  Lemma target_on_path : forall T, owns T -> NoDup (leaves T) ->
+    In (ts B kk T) (inners T) -> In (ts B kk T) (pathin T).
+  Proof.
+    induction T as [i|i l IHl rr IHr]; intros O ND I; [simpl in I; contradiction|].
+    destruct O as [_ [Ol Or]]. simpl in ND. apply nodup_app_iff in ND as [Nl [Nr D]].
+    cbn [ts pathin inners] in *. unfold pchild. destruct I as [<- | I]; [simpl; auto|].
+    right. destruct (pbit kk (B i)).
+    - apply IHr; auto. apply in_app_or in I as [I | I]; auto. exfalso.
+      apply (D (ts B kk rr)); [now apply owns_inner_leaf | apply ts_in].
+    - apply IHl; auto. apply in_app_or in I as [I | I]; auto. exfalso.
+      apply (D (ts B kk l)); [apply ts_in | now apply owns_inner_leaf].
+  Qed.
+
+  Lemma inners_tdel_pre : forall T d x, NoDup (inners T) -> r = lastinner T d ->
+    (In n (inners T) -> In n (pathin T)) ->
+    In x (inners (tdel T)) -> exists j, In j (inners T) /\ j <> r /\ x = rho j.
+  Proof.
+    induction T as [i|i l IHl rr IHr]; intros d x NI Hr HP H; [simpl in H; contradiction|].
+    cbn [tdel lastinner inners pathin] in *. unfold pchild in *.
+    apply NoDup_cons_iff in NI as [NIi NI]. apply nodup_app_iff in NI as [NIl [NIr DI]].
+    rewrite in_app_iff in NIi.
+    assert (OFF : forall X, (forall y, In y (inners X) -> In y (inners l ++ inners rr)) ->
+              (forall y, In y (inners X) -> ~ In y (pathin (if pbit kk (B i) then rr else l))) ->
+              (forall y, In y (inners X) -> y <> r) ->
+              In x (inners X) -> exists j, In j (i :: inners l ++ inners rr) /\ j <> r /\ x = rho j).
+    { intros X SUB NPX NRX HX. exists x. split; [right; now apply SUB|]. split; [now apply NRX|].
+      unfold rho. destruct (Nat.eqb_spec x n) as [->|]; auto. exfalso.
+      destruct HP as [<- | HPn]; [right; now apply SUB | | ].
+      - apply NIi. apply in_app_or. now apply SUB.
+      - exact (NPX n HX HPn). }
+    destruct (pbit kk (B i)).
+    - destruct rr as [j0|j0 a b]; cbn [is_leaf] in H.
+      + simpl in Hr. apply (OFF l); auto; try (intros y Hy; apply in_or_app; now auto);
+          intros y Hy EQ; subst; tauto.
+      + assert (IR : In r (inners (PNode j0 a b))) by (rewrite Hr; now apply lastinner_in).
+        cbn [inners] in H. destruct H as [<- | H].
+        * exists i. split; [simpl; auto|]. split; auto. intros ->. tauto.
+        * apply in_app_or in H as [H | H].
+          -- apply (OFF l); auto.
+             ++ intros y Hy. apply in_or_app. auto.
+             ++ intros y Hy HPy. apply (DI y Hy). now apply pathin_inners.
+             ++ intros y Hy ->. eapply DI; eauto.
+          -- destruct (IHr i x NIr Hr) as [j [Hj [NR E]]]; auto.
+             { intros I. destruct HP as [<- | Q]; auto; [right; apply in_or_app; auto | tauto]. }
+             exists j. split; [right; apply in_or_app; auto | auto].
+    - destruct l as [j0|j0 a b]; cbn [is_leaf] in H.
+      + simpl in Hr. apply (OFF rr); auto; try (intros y Hy; apply in_or_app; now auto);
+          intros y Hy EQ; subst; tauto.
+      + assert (IR : In r (inners (PNode j0 a b))) by (rewrite Hr; now apply lastinner_in).
+        cbn [inners] in H. destruct H as [<- | H].
+        * exists i. split; [simpl; auto|]. split; auto. intros ->. tauto.
+        * apply in_app_or in H as [H | H].
+          -- destruct (IHl i x NIl Hr) as [j [Hj [NR E]]]; auto.
+             { intros I. destruct HP as [<- | Q]; auto; [right; apply in_or_app; auto | tauto]. }
+             exists j. split; [right; apply in_or_app; auto | auto].
+          -- apply (OFF rr); auto.
+             ++ intros y Hy. apply in_or_app. auto.
+             ++ intros y Hy HPy. apply (DI y); [now apply pathin_inners | exact Hy].
+             ++ intros y Hy ->. eapply DI; eauto.
+  Qed.
+
   (** ** the bit invariant, for bit positions [B'] that agree with [B] except at the renamed node *)
   Variable B' : nat -> Z.
   Hypothesis B'r : n <> r -> B' r = B n.
